@@ -263,7 +263,7 @@ def parse_geom_impl(line, npts):
         out.append(dict(iid=iid, tri=tri, al=al, d=d, row=row))
     return out
 
-def compare_geom(model, impl, info):
+def compare_geom(model, impl, info, internal=True):
     """returns list of (electrode index, message)"""
     bad = []
     for e, (m, i) in enumerate(zip(model, impl)):
@@ -275,6 +275,9 @@ def compare_geom(model, impl, info):
         irow = {c: v for c, v in i["row"].items() if abs(v) > 1e-13}
         if set(mrow) != set(irow) or any(not fclose(mrow[c], irow[c]) for c in mrow):
             msgs.append("row %s vs %s" % ({c: float(v) for c, v in sorted(mrow.items())}, dict(sorted(irow.items()))))
+        if not internal:
+            if msgs: bad.append((e, "; ".join(msgs)))
+            continue
         # the implementation's own row must sit on the triangle it returned, with that triangle's alphas
         if len(i["row"]) > 3 or not set(i["row"]).issubset(set(i["tri"])): msgs.append("row support %s not within returned triangle %s" % (sorted(i["row"]), i["tri"]))
         if abs(sum(i["row"].values()) - 1.0) > 1e-12: msgs.append("row sums to %.17g" % sum(i["row"].values()))
@@ -392,7 +395,7 @@ def main(replay=None):
                     # is it the pinned behaviour (alphas of the last interface scanned)?
                     pm = core.run_model([c.replace("c09 3 ", "c09 4 ", 1)])[0]
                     pmm = parse_geom_model(pm, npts)
-                    if pmm is not None and not compare_geom(pmm, ii, info) is None and not [b for b in compare_geom(pmm, ii, info) if "row support" not in b[1] and "reconstructed" not in b[1]]:
+                    if pmm is not None and not compare_geom(pmm, ii, info, internal=False):
                         msg += " -- the implementation agrees with the pinned model: alphas of the last interface scanned (DESIGN 4 row 12)"
         else:
             continue
